@@ -16,7 +16,7 @@ EXTENDS RuleSelect, TLCExt
 
 Traces == JsonDeserialize(IOEnv.VF_TRACES)
 VARIABLES tid, pc, rej, nacc, fin, sel, seen
-tvars == <<tid, pc, rej, nacc, fin, sel, seen, allow, deny, done>>
+tvars == <<tid, pc, rej, nacc, fin, sel, seen, allow, deny>>
 
 T  == Traces[tid]
 Ev == T.events[pc + 1]
@@ -36,7 +36,7 @@ Clause ==
 Load(k) == IF k <= Len(Traces) THEN sel' = SelOf(Traces[k]) ELSE sel' = {}
 NextTrace == tid' = tid + 1 /\ pc' = 0 /\ seen' = {} /\ Load(tid + 1)
 TInit == /\ tid = 1 /\ pc = 0 /\ rej = <<>> /\ nacc = 0 /\ fin = FALSE /\ seen = {}
-         /\ allow = {} /\ deny = {} /\ done = FALSE
+         /\ allow = {} /\ deny = {}
          /\ sel = (IF Len(Traces) >= 1 THEN SelOf(Traces[1]) ELSE {})
 Step == /\ tid <= Len(Traces) /\ pc < Len(T.events)
         /\ IF Clause = "ok"
@@ -45,16 +45,16 @@ Step == /\ tid <= Len(Traces) /\ pc < Len(T.events)
                 /\ UNCHANGED <<tid, rej, nacc, fin, sel>>
            ELSE /\ rej' = Append(rej, [id |-> T.id, step |-> pc + 1, clause |-> Clause])
                 /\ NextTrace /\ UNCHANGED <<nacc, fin>>
-        /\ UNCHANGED <<allow, deny, done>>
+        /\ UNCHANGED <<allow, deny>>
 \* end-of-trace obligation: the differential covered every selected rule (unless the trace says it is partial)
 EndTrace == /\ tid <= Len(Traces) /\ pc = Len(T.events)
             /\ IF T.complete => seen = sel
                THEN nacc' = nacc + 1 /\ UNCHANGED rej
                ELSE rej' = Append(rej, [id |-> T.id, step |-> pc, clause |-> "EveryRuleAlone"]) /\ UNCHANGED nacc
-            /\ NextTrace /\ UNCHANGED <<fin, allow, deny, done>>
+            /\ NextTrace /\ UNCHANGED <<fin, allow, deny>>
 Finish == /\ tid = Len(Traces) + 1 /\ ~fin /\ fin' = TRUE
           /\ PrintT(ToJson([accepted |-> nacc, rejected |-> rej]))
-          /\ UNCHANGED <<tid, pc, rej, nacc, sel, seen, allow, deny, done>>
+          /\ UNCHANGED <<tid, pc, rej, nacc, sel, seen, allow, deny>>
 TraceNext == Step \/ EndTrace \/ Finish
 TraceSpec == TInit /\ [][TraceNext]_tvars
 =============================================================================
